@@ -15,8 +15,8 @@
         u:x<data> / ul:l<ints>   obj.update(data), no digest       -> `.` | `!`   (never right after a step that raised: the window then holds the value > 255)
     The model column is the ONE-SHOT function of each step's own arguments — `Model.Tlsh.tlsh lcap cfg data force`,
     `Model.Tlsh.fromHash cfg digest`, `Model.Nilsimsa.nilsimsa target data` — : a call starts with `reset()`, so nothing an
-    earlier step left in the object can show (Proofs.C19.tlsh_call_ignores_history / nilsimsa_call_ignores_history state this
-    for the object models Model.TlshO / Model.Nilsimsa.stepOp).  Spec column: Spec.Tlsh / Spec.Nilsimsa of each call's data.
+    earlier step left in the object can show (Proofs.C19.tlsh_call_ignores_history / tlsh_call_is_oneshot /
+    nilsimsa_call_ignores_history prove this for the object models Model.Objects.TlshO / Model.Nilsimsa.stepOp).  Spec column: Spec.Tlsh / Spec.Nilsimsa of each call's data.
     Lists with a value > 255 only where the code does not use it as an index (TLSH: shorter than a window; Nilsimsa: first or
     last position) are not lines of the protocol.
 -/
